@@ -447,7 +447,7 @@ Fixpoint render (defs : list sdef) (pnames : list string) (t : src) : string :=
   | SRes a b => "Result<" ++ render defs pnames a ++ render_sep b ++ render defs pnames b ++ ">"
   | SBTreeMap a b => "BTreeMap<" ++ render defs pnames a ++ render_sep b ++ render defs pnames b ++ ">"
   | SBTreeSet x => "BTreeSet<" ++ render defs pnames x ++ ">"
-  | SCow x => "Cow<'static, " ++ render defs pnames x ++ ">"
+  | SCow x => "Cow<'static" ++ render_sep x ++ render defs pnames x ++ ">"
   | SRange x => "Range<" ++ render defs pnames x ++ ">"
   | SBitVec st lsb => "BitVec<" ++ prim_name st ++ ", " ++ (if lsb then "Lsb0" else "Msb0") ++ ">"
   end.
